@@ -150,7 +150,7 @@ type fakeInfoSource struct {
 }
 
 func startInfoSource() *fakeInfoSource {
-	ln, err := net.Listen("tcp", "127.0.0.1:0")
+	ln, err := hx.Listen()
 	if err != nil {
 		hx.Fatal("%v", err)
 	}
